@@ -206,6 +206,99 @@ class Frame:
         self.handlers = []   # stack of handler name lists for enclosing try statements
 
 
+_MUTATING_METHODS = {"append", "extend", "insert", "pop", "remove", "clear", "sort", "reverse", "update", "setdefault", "popitem",
+                     "add", "discard", "__setitem__", "__delitem__"}
+
+
+def module_mutates(mod, name):
+    """does any code of the module change the module-level object bound to `name` (or rebind the name)?"""
+    for n in ast.walk(mod.tree):
+        if isinstance(n, ast.Global) and name in n.names:
+            return "rebound through `global` at line %d" % n.lineno
+        if isinstance(n, (ast.Subscript,)) and isinstance(n.ctx, (ast.Store, ast.Del)) and isinstance(n.value, ast.Name) and n.value.id == name:
+            return "item assignment at line %d" % n.lineno
+        if isinstance(n, ast.AugAssign) and isinstance(n.target, ast.Name) and n.target.id == name and not isinstance(getattr(n, "_parent", None), ast.Module):
+            return "augmented assignment at line %d" % n.lineno
+        if isinstance(n, ast.Call) and isinstance(n.func, ast.Attribute) and n.func.attr in _MUTATING_METHODS \
+                and isinstance(n.func.value, ast.Name) and n.func.value.id == name:
+            return "%s() at line %d" % (n.func.attr, n.lineno)
+    return None
+
+
+def heap_mutating(E, fnode, mod, clsnode, depth):
+    """syntactic over-approximation: the function (or an un-contracted repository function it calls on self) writes to the heap"""
+    for n in ast.walk(fnode):
+        if isinstance(n, (ast.Assign, ast.AugAssign, ast.AnnAssign)):
+            tg = n.targets if isinstance(n, ast.Assign) else [n.target]
+            for t in tg:
+                for t1 in (t.elts if isinstance(t, (ast.Tuple, ast.List)) else [t]):
+                    if isinstance(t1, (ast.Attribute, ast.Subscript)):
+                        return True
+        elif isinstance(n, ast.Delete):
+            if any(isinstance(t, (ast.Attribute, ast.Subscript)) for t in n.targets):
+                return True
+        elif isinstance(n, ast.Global):
+            return True
+        elif isinstance(n, ast.Call) and isinstance(n.func, ast.Attribute):
+            if n.func.attr in _MUTATING_METHODS:
+                base = n.func.value
+                while isinstance(base, (ast.Attribute, ast.Subscript)):
+                    base = base.value
+                params = {a.arg for a in fnode.args.args + fnode.args.posonlyargs + fnode.args.kwonlyargs}
+                if isinstance(base, ast.Name) and base.id in params:
+                    return True
+            if depth < 3 and clsnode is not None and isinstance(n.func.value, ast.Name) and n.func.value.id == "self":
+                try:
+                    from .builtins_ import find_method
+                    mk = find_method(E, "%s:%s" % (mod.rel, clsnode.name), n.func.attr)
+                    if mk and not any(k == mk or k.startswith(mk + "#") for k in CONTRACTS):
+                        f2, m2, c2 = E.repo.find(mk)
+                        if f2 is not fnode and heap_mutating(E, f2, m2, c2, depth + 1):
+                            return True
+                except Exception:
+                    pass
+    return False
+
+
+def loops_of(fnode):
+    """the loops and comprehensions of a function in source order (nested definitions excluded)"""
+    found = []
+
+    def visit(n):
+        for ch in ast.iter_child_nodes(n):
+            if isinstance(ch, (ast.FunctionDef, ast.AsyncFunctionDef, ast.Lambda, ast.ClassDef)):
+                continue
+            if isinstance(ch, (ast.For, ast.AsyncFor, ast.While, ast.ListComp, ast.SetComp, ast.DictComp, ast.GeneratorExp)):
+                found.append(ch)
+            visit(ch)
+    visit(fnode)
+    found.sort(key=lambda n: (n.lineno, n.col_offset))
+    return found
+
+
+def loop_header(node):
+    if isinstance(node, (ast.For, ast.AsyncFor)):
+        return "for %s in %s" % (ast.unparse(node.target), ast.unparse(node.iter))
+    if isinstance(node, ast.While):
+        return "while %s" % ast.unparse(node.test)
+    return "%s %s" % (type(node).__name__, " ".join(ast.unparse(g).strip() for g in node.generators))
+
+
+_LOOP_HEADERS = None
+
+
+def LOOP_HEADERS():
+    global _LOOP_HEADERS
+    if _LOOP_HEADERS is None:
+        import json, os
+        p = os.path.join(os.path.dirname(os.path.dirname(os.path.abspath(__file__))), "contracts", "loop_headers.json")
+        try:
+            _LOOP_HEADERS = json.load(open(p))
+        except Exception:
+            _LOOP_HEADERS = {}
+    return _LOOP_HEADERS
+
+
 class Engine:
     def __init__(self, repo, budget_ms=150):
         self.repo = repo
@@ -407,6 +500,8 @@ class Engine:
         """Value -> SV (boxing python tuples/lists)."""
         if isinstance(v, SV):
             return v if ty is None else box(v, ty)
+        if type(v).__name__ == "PathV":
+            return SV(v.term(), TStr)
         if isinstance(v, Ref):
             c = self.cell(v)
             if c[0] in ("seq", "pylist", "iter"):
@@ -614,6 +709,9 @@ class Engine:
             result = fr.yielded if is_gen else r.v
         except PyRaise as e:
             raised = e
+        if raised is None and type(result).__name__ == "Unpickled" and c.returns is not None:
+            from .externals import resolve_unpickled
+            result = resolve_unpickled(self, result, c.returns)
         if raised is None and isinstance(result, SV) and isinstance(result.ty, TOpt) and c.returns == result.ty.elem:
             so = sort(result.ty)
             self.oblige("result_not_none", so.is_some(result.t), node.lineno, "the function returns None")
@@ -990,7 +1088,55 @@ class Engine:
                             r = root(a)
                             if r:
                                 cells.add(r)
+                    elif fname and self.inlined_callee_mutates(n, fname, fr):
+                        # a callee that is executed in place (no contract) and writes to the heap: what it may reach through its
+                        # receiver and arguments is changed by the loop body
+                        for a in list(n.args) + ([n.func.value] if isinstance(n.func, ast.Attribute) else []):
+                            r = root(a)
+                            if r:
+                                cells.add(r)
         return names, cells
+
+    def inlined_callee_mutates(self, call, fname, fr, _depth=0):
+        """does `call` resolve to a repository function without contract (it would be executed in place) whose body -- or the
+        body of such a function it calls -- stores into attributes / items or calls a mutating method?"""
+        from .builtins_ import find_method
+        key = None
+        try:
+            if isinstance(call.func, ast.Name):
+                ent = getattr(fr.module, "names", {}).get(fname) if fr.module is not None else None
+                if ent and ent[0] == "func":
+                    key = "%s:%s" % (fr.module.rel, fname)
+                elif ent and ent[0] == "from":
+                    key = "%s:%s" % (ent[1], ent[2])
+            elif isinstance(call.func, ast.Attribute):
+                recv = call.func.value
+                chain = recv
+                while isinstance(chain, ast.Attribute):
+                    chain = chain.value
+                if isinstance(chain, ast.Name) and chain.id in fr.env:
+                    v = fr.env[chain.id]
+                    node_ = recv
+                    path = []
+                    while isinstance(node_, ast.Attribute):
+                        path.append(node_.attr)
+                        node_ = node_.value
+                    for a in reversed(path):
+                        if isinstance(v, Ref) and self.cell(v)[0] == "obj":
+                            v = self.cell(v)[2].get(a)
+                        else:
+                            v = None
+                            break
+                    if isinstance(v, Ref) and self.cell(v)[0] == "obj":
+                        key = find_method(self, self.cell(v)[1].key, fname)
+            if key is None:
+                return False
+            if any(k == key or k.startswith(key + "#") for k in CONTRACTS) and key not in INLINE:
+                return False
+            fnode, mod, clsnode = self.repo.find(key)
+        except Exception:
+            return False
+        return heap_mutating(self, fnode, mod, clsnode, 0)
 
     def havoc_value(self, name, v, tyhint=None):
         if tyhint is not None:
@@ -1043,18 +1189,7 @@ class Engine:
         fnode = getattr(fr, "fnode", None)
         if node is not None and fnode is not None:
             if getattr(fr, "loop_index", None) is None:
-                found = []
-
-                def visit(n, top=True):
-                    for ch in ast.iter_child_nodes(n):
-                        if isinstance(ch, (ast.FunctionDef, ast.AsyncFunctionDef, ast.Lambda, ast.ClassDef)):
-                            continue
-                        if isinstance(ch, (ast.For, ast.AsyncFor, ast.While, ast.ListComp, ast.SetComp, ast.DictComp, ast.GeneratorExp)):
-                            found.append(ch)
-                        visit(ch, False)
-                visit(fnode)
-                found.sort(key=lambda n: (n.lineno, n.col_offset))
-                fr.loop_index = {id(n): i for i, n in enumerate(found)}
+                fr.loop_index = {id(n): i for i, n in enumerate(loops_of(fnode))}
             k = fr.loop_index.get(id(node))
         if k is None:
             k = fr.loop_ord
@@ -1064,6 +1199,14 @@ class Engine:
         unroll = (c.unroll.get(k) if c else None)
         if spec is None and unroll is None and c is not None and c.frame_only:
             spec = {"invariant": [], "types": c.locals}
+        if (spec is not None or unroll is not None) and node is not None and c is not None and c.body is None:
+            # loop annotations are written for one particular loop: when its header no longer reads as it did when the
+            # annotation was written (contracts/loop_headers.json, regenerated by bin/loop-headers on the unchanged tree),
+            # the annotation is stale and the function is outside the verified subset -- undecided, never a violation
+            base = LOOP_HEADERS().get(c.key, {}).get(str(k))
+            if base is not None and base != loop_header(node):
+                raise Unsupported("loop #%d of %s was annotated as `%s` and now reads `%s`: its invariants no longer apply" % (
+                    k, c.key.split(":")[1], base, loop_header(node)))
         return k, spec, unroll
 
     def havoc_loop(self, body, fr, spec, extra_names=()):
@@ -1607,12 +1750,20 @@ class Engine:
         if kind == "assign":
             try:
                 lit = ast.literal_eval(a)
+                if isinstance(lit, (dict, list, set)):
+                    # a module-level table: its literal contents are what a function sees only if nothing in the module ever
+                    # changes it; a module-level cache (mutated somewhere) holds arbitrary contents at entry, which the
+                    # engine does not model => outside the verified subset (undecided, never "holds its initial contents")
+                    why = module_mutates(mod, n)
+                    if why:
+                        raise Unsupported("module-level mutable state %s.%s (%s)" % (mod.rel, n, why))
                 if isinstance(lit, dict):
-                    # module-level mutable dict (a cache): modelled as holding its initial contents at every read
                     return self.alloc(("pydict", dict(lit)))
                 if isinstance(lit, list):
                     return self.alloc(("pylist", list(lit)))
                 return lit
+            except Unsupported:
+                raise
             except Exception:
                 pass
             fr = Frame(mod.rel + ":<module>", mod, None, None, {})
